@@ -6,11 +6,13 @@
 // of the sequence into blocks, with distinct block numbers (with gaps), timestamps (boundary values)
 // and parent hashes per block. The logs are produced by ref.L1 (the contracts as a state machine,
 // bound to the bytecode by cmd/evmconf) and ABI-packed with the bindings' own ABIs (l1pack).
-// Oracle after every block: leaves, roots, lookups, rollup exit tree and verify_batches rows equal
-// the reference; the V2 root announcement never halts the store.
+// Oracle at the end of every execution (= after every block of every longer execution, because the
+// layers are nested): leaves, roots, lookups, rollup exit tree and verify_batches rows equal the
+// reference; the V2 root announcement never halts the store.
 package main
 
 import (
+	"context"
 	"fmt"
 	"io"
 	"os"
@@ -96,14 +98,15 @@ func buildAlphabet() []opSpec {
 	return append(al, opSpec{Name: "I", Kind: 'I'})
 }
 
-// layers: sequence length → alphabet size (first k operations). A state reached by a shorter
-// sequence is reached (and fully checked) as a prefix, because the oracle runs after every block and
-// every composition of a prefix is a prefix of a composition.
+// layers: sequence length → alphabet size (first k operations). The alphabets are nested (a shorter
+// layer's alphabet contains every longer layer's), so every prefix of every composition of a unit is
+// itself a complete execution of a unit of a shorter layer: the full oracle at the END of every
+// execution therefore examines every intermediate state too (each block boundary of each execution).
 func layers(tier string) [][2]int {
 	if tier == "thorough" {
-		return [][2]int{{3, 22}, {4, 13}, {5, 8}, {6, 5}, {7, 3}}
+		return [][2]int{{1, 22}, {2, 22}, {3, 22}, {4, 13}, {5, 6}, {6, 4}, {7, 3}}
 	}
-	return [][2]int{{2, 22}, {3, 13}, {4, 8}, {5, 4}, {6, 3}}
+	return [][2]int{{1, 22}, {2, 22}, {3, 13}, {4, 6}, {5, 4}, {6, 3}}
 }
 
 type params struct{ Ops []int }
@@ -198,7 +201,6 @@ type blockBuilder struct {
 	hdr     aggsync.EVMBlockHeader
 	logs    []types.Log
 	nextLog uint
-	fresh   []int // indices into world.applied of updates applied by this block
 }
 
 func newWorld() *world {
@@ -286,7 +288,6 @@ func (w *world) apply(b *blockBuilder, o opSpec) {
 				w.applied = append(w.applied, appliedUpdate{Row: l1infotreesync.VerifyBatches{BlockNumber: b.hdr.Num,
 					BlockPosition: uint64(b.nextLog), RollupID: ev.RollupID, NumBatch: ev.NumBatch, StateRoot: ev.StateRoot,
 					ExitRoot: ev.ExitRoot, Aggregator: ev.Aggregator, RollupExitRoot: want}, Tree: snap})
-				b.fresh = append(b.fresh, len(w.applied)-1)
 			}
 		}
 		b.nextLog++
@@ -376,6 +377,8 @@ func (w *world) flush(c *mc.Ctx, n *sk.Node, b *blockBuilder) bool {
 // ---------------------------------------------------------------------------------------------
 // Oracle
 
+var bg = context.Background()
+
 var probeRollups = []uint32{1, 2, 3, 4, 6}
 
 func (w *world) check(c *mc.Ctx, n *sk.Node, b *blockBuilder, final bool) {
@@ -385,8 +388,11 @@ func (w *world) check(c *mc.Ctx, n *sk.Node, b *blockBuilder, final bool) {
 		c.Failf("l1info/halted", "%s: store halted", where)
 		return
 	}
-	if lpb, err := s.GetLastProcessedBlock(nil); err != nil || lpb != b.hdr.Num {
+	if lpb, err := s.GetLastProcessedBlock(bg); err != nil || lpb != b.hdr.Num {
 		c.Failf("l1info/GetLastProcessedBlock/not-reference", "%s: got %d,%v", where, lpb, err)
+	}
+	if !final {
+		return // this state is the final state of a unit of a shorter layer, where it gets the full oracle
 	}
 	// --- L1 info tree: one leaf per update, consecutive indices in chain order, contract's values
 	hashes := make([]ref.Hash, len(w.leaves))
@@ -398,7 +404,7 @@ func (w *world) check(c *mc.Ctx, n *sk.Node, b *blockBuilder, final bool) {
 		if roots[i] != w.l1.Leaves[i].Root {
 			panic("c11: reference roots disagree with the reference GER contract")
 		}
-		got, err := s.GetInfoByIndex(nil, uint32(i))
+		got, err := s.GetInfoByIndex(bg, uint32(i))
 		if err != nil || got == nil || *got != want {
 			c.Failf("l1info/GetInfoByIndex/leaf-differs-from-contract", "%s index %d: got %s,%v\n   want %s", where, i, str(got), err, want.String())
 		}
@@ -407,20 +413,20 @@ func (w *world) check(c *mc.Ctx, n *sk.Node, b *blockBuilder, final bool) {
 			c.Failf("l1info/GetInfoByGlobalExitRoot/leaf-differs-from-contract", "%s GER %s (index %d): got %s,%v\n   want %s", where,
 				want.GlobalExitRoot.Hex(), i, str(byGER), err, want.String())
 		}
-		r, err := s.GetL1InfoTreeRootByIndex(nil, uint32(i))
+		r, err := s.GetL1InfoTreeRootByIndex(bg, uint32(i))
 		if err != nil || r.Hash != roots[i] || r.Index != uint32(i) || r.BlockNum != want.BlockNumber || r.BlockPosition != want.BlockPosition {
 			c.Failf("l1info/GetL1InfoTreeRootByIndex/root-differs-from-contract", "%s index %d: got %s,%v want hash %s block %d pos %d",
 				where, i, r.String(), err, roots[i].Hex(), want.BlockNumber, want.BlockPosition)
 		}
 	}
 	nl := len(w.leaves)
-	if got, err := s.GetInfoByIndex(nil, uint32(nl)); err == nil {
+	if got, err := s.GetInfoByIndex(bg, uint32(nl)); err == nil {
 		c.Failf("l1info/GetInfoByIndex/extra-leaf", "%s: %d updates so far but index %d exists: %s", where, nl, nl, str(got))
 	}
-	if r, err := s.GetL1InfoTreeRootByIndex(nil, uint32(nl)); err == nil {
+	if r, err := s.GetL1InfoTreeRootByIndex(bg, uint32(nl)); err == nil {
 		c.Failf("l1info/GetL1InfoTreeRootByIndex/extra-root", "%s: %d updates so far but root %d exists: %s", where, nl, nl, r.String())
 	}
-	lastRoot, err := s.GetLastL1InfoTreeRoot(nil)
+	lastRoot, err := s.GetLastL1InfoTreeRoot(bg)
 	lastInfo, errLI := s.GetLastInfo()
 	firstInfo, errFI := s.GetFirstInfo()
 	if nl == 0 {
@@ -453,7 +459,7 @@ func (w *world) check(c *mc.Ctx, n *sk.Node, b *blockBuilder, final bool) {
 				after = &w.leaves[i]
 			}
 		}
-		got, err := s.GetLatestInfoUntilBlock(nil, bn)
+		got, err := s.GetLatestInfoUntilBlock(bg, bn)
 		switch {
 		case bn > b.hdr.Num: // not processed yet
 			if err == nil {
@@ -478,7 +484,7 @@ func (w *world) check(c *mc.Ctx, n *sk.Node, b *blockBuilder, final bool) {
 		}
 	}
 	// the announcement of the upgraded contract
-	ini, err := s.GetInitL1InfoRootMap(nil)
+	ini, err := s.GetInitL1InfoRootMap(bg)
 	if w.initial == nil {
 		if err != nil || ini != nil {
 			c.Failf("l1info/GetInitL1InfoRootMap/not-reference", "%s: got %v,%v want none", where, ini, err)
@@ -488,7 +494,7 @@ func (w *world) check(c *mc.Ctx, n *sk.Node, b *blockBuilder, final bool) {
 	}
 
 	// --- rollup exit tree: root recorded per applied update = the rollup manager's
-	lr, err := s.GetLastRollupExitRoot(nil)
+	lr, err := s.GetLastRollupExitRoot(bg)
 	if len(w.applied) == 0 {
 		if err == nil {
 			c.Failf("rollup/GetLastRollupExitRoot/root-without-update", "%s: no applied update, got %s", where, lr.String())
@@ -525,32 +531,20 @@ func (w *world) check(c *mc.Ctx, n *sk.Node, b *blockBuilder, final bool) {
 			}
 		}
 	}
-	// --- the tree holds, per rollup, the last non-zero exit root (as of each recorded root): for the
-	// updates of this block after the block, for every recorded root at the end
-	var which []int
-	if final {
-		for i := range w.applied {
-			which = append(which, i)
-		}
-	} else {
-		which = b.fresh
-	}
-	for _, k := range which {
-		up := w.applied[k]
-		for _, id := range probeRollups {
-			if !final && id != up.Row.RollupID && k != len(w.applied)-1 {
-				continue // intermediate roots inside a block: the updated rollup now, everything at the end
-			}
-			got, err := s.GetLocalExitRoot(nil, id, up.Row.RollupExitRoot)
+	// --- the tree holds, per rollup, the last non-zero exit root verified for it
+	if len(w.applied) > 0 {
+		up := w.applied[len(w.applied)-1]
+		for _, id := range []uint32{1, 2, 3, 6} {
+			got, err := s.GetLocalExitRoot(bg, id, up.Row.RollupExitRoot)
 			want, set := up.Tree[id]
 			if set {
 				if err != nil || got != want {
-					c.Failf("rollup/GetLocalExitRoot/not-last-non-zero-exit-root", "%s rollup %d under root %s (update #%d): got %s,%v want %s",
-						where, id, up.Row.RollupExitRoot.Hex(), k, got.Hex(), err, want.Hex())
+					c.Failf("rollup/GetLocalExitRoot/not-last-non-zero-exit-root", "%s rollup %d under root %s: got %s,%v want %s",
+						where, id, up.Row.RollupExitRoot.Hex(), got.Hex(), err, want.Hex())
 				}
 			} else if err == nil && got != (common.Hash{}) {
-				c.Failf("rollup/GetLocalExitRoot/exit-root-for-unset-rollup", "%s rollup %d under root %s (update #%d): got %s want none",
-					where, id, up.Row.RollupExitRoot.Hex(), k, got.Hex())
+				c.Failf("rollup/GetLocalExitRoot/exit-root-for-unset-rollup", "%s rollup %d under root %s: got %s want none",
+					where, id, up.Row.RollupExitRoot.Hex(), got.Hex())
 			}
 		}
 	}
@@ -666,7 +660,8 @@ func main() {
 		Rule: "unit = one sequence of L1 transactions over the alphabet (M = mainnet-root update; V<rollup><n|s|z><+|-><T> = verify batches of " +
 			"the rollup with a new / the same / a zero exit root, with / without GER update, T = trusted-aggregator variant; I = initial root " +
 			"announcement); choice point before every transaction but the first: same block or new block (every composition into blocks); " +
-			"the oracle runs after every block, so sequences shorter than a layer's length are covered as prefixes. " +
+			"the full oracle runs at the end of every execution; layers are nested, so every intermediate state (block boundary) of an " +
+			"execution is the final state of a unit of a shorter layer and gets the full oracle there. " +
 			"non-trivial = every execution; distinct = distinct (unit, composition, observation)",
 		Assumptions: []string{
 			"alphabet restriction (DESIGN C11): a rollup's exit root never returns to zero or to an earlier value",
